@@ -17,7 +17,8 @@ describe(
     "metadata); jobs are emitted and re-added in iteration order; the generic job model drops a field on output only if the "
     "field declares that default; run_checks() precedes the dump of config.json, the creation of the cluster state and every "
     "call that may hand off or launch; each listed invalidity has a raising check on that path (unknown blocker, duplicate job "
-    "name, absent/unknown/duplicate group, differing hpc_type or must_be_same value, estimate above walltime).",
+    "name, absent/unknown/duplicate group, differing hpc_type or must_be_same value, estimate above walltime)."
+    " add_job assigns a job attribute (job_id) only when it is absent, so loading never renumbers; the walltime pattern is analysed as a regex syntax tree: the hours group must take every leading digit.",
     ["pydantic validates and re-creates model fields from their dict() form (extra='forbid')"],
     "lossless equality over generated values and 'every valid configuration is accepted' are value-level and not decided.",
 )
@@ -256,6 +257,9 @@ def c17_4(ctx, r):
     ct = ctx.fn(f"{JC}.check_job_runtimes", "C17.4")
     raises_under(ct, lambda f, p: p and f.replace(" ", "") == "wall_time<estimate", "an estimate above the group's walltime raises", "runtime check", "an estimated runtime above the walltime")
     okrt = "wall_times[job.submission_group]" in ctx.src(ct.node) and "timedelta(minutes=job.estimated_run_minutes)" in ctx.src(ct.node) and "x.submitter_params.get_wall_time()" in ctx.src(ct.node)
+    from .c07 import walltime_parse
+
+    walltime_parse(ctx, r, "C17.4")
     r.check(okrt, "the estimate (minutes) is compared with the job's own group's walltime", key_of(ct, "operands"), ct.loc(), "check_job_runtimes compares different quantities")
 
 
@@ -264,3 +268,31 @@ def c17_5(ctx, r):
     from .c06 import c06_7
 
     c06_7(ctx, r)
+
+
+@rule(P, "C17.6", "T1", "loading keeps stored identifiers: add_job assigns a job attribute only when it is absent", min_obligations=1)
+def c17_6(ctx, r):
+    base = ctx.cls(JC, "C17.6")
+    n_st = 0
+    for sub in ctx.ix.subclasses(base):
+        m = sub.methods.get("add_job")
+        if m is None or sub.module.name.startswith("jade.extensions.demo") or len(m.params) < 1:
+            continue
+        ctx.counters["functions"].add(m.qual)
+        jp = [p for p in m.params if p != "self"][0]
+        cfg = ctx.cfg(m)
+        for n in cfg.nodes:
+            a = n.ast
+            if n.kind != "stmt" or not isinstance(a, (ast.Assign, ast.AugAssign)):
+                continue
+            for t in (a.targets if isinstance(a, ast.Assign) else [a.target]):
+                if isinstance(t, ast.Attribute) and isinstance(t.value, ast.Name) and t.value.id == jp:
+                    n_st += 1
+                    forms = guard_forms(ctx, m, n)
+                    ok = any(p and f.replace(" ", "").endswith(f".{t.attr}isNone") or (p and f.replace(" ", "").endswith(f"{t.attr}>isNone")) for f, p in forms)
+                    r.check(ok, f"{m.short}: {jp}.{t.attr} is assigned only when it is None", key_of(m, f"assigns {jp}.{t.attr} to a job that has one"), m.loc(a),
+                            f"`{ctx.src(a)}` can run for a job that already carries {t.attr} (guards: {sorted(('' if p else 'not ') + f for f, p in forms)}): a job loaded from a file is renumbered, "
+                            "and an unnamed job is named after its id, so its name changes and blocked_by entries of other jobs point at nothing",
+                            "loading it back yields the same jobs in the same order with the same names", guards=sorted(("" if p else "not ") + f for f, p in forms))
+    if n_st == 0:
+        raise AnalysisError("C17.6", "no add_job override assigns a job attribute (expected GenericCommandConfiguration.add_job -> job_id)")
